@@ -2,9 +2,12 @@
    Model: Kernel/Cache.v: any number of processes, each a small-step program (load, decide, remove stale bytecode,
    write a private temporary file, atomic replace, reload, verify, install), interleaved arbitrarily on one shared
    directory; any process may crash between any two steps; stamps and bytecode caching chosen adversarially;
-   the disk may initially hold anything (in particular a torn file left by a crashed pre-fix writer). *)
+   the disk may initially hold anything (in particular a torn file left by a crashed pre-fix writer).
+   Kernel/CacheTmp.v refines it with the temporary files themselves ("<module>.py.<pid>.tmp", opened with mode 'w':
+   create or truncate) and process ids that are RECYCLED once their process is dead: a crash leaves a whole or a torn
+   temporary file behind and a later process may get the same pid. *)
 From Coq Require Import ZArith List Bool.
-From Bisturi Require Import Kernel.Cache.
+From Bisturi Require Import Kernel.Cache Kernel.CacheTmp.
 Import ListNotations.
 
 (* safety: whatever happens, a process that installs code installs the code of its OWN declaration -- never a
@@ -25,6 +28,39 @@ Theorem C16_refuted_legacy : forall (D : Type) (same_cookie : D -> D -> bool) (d
   exists a, legacy_hit D same_cookie d a = true /\ legacy_usable D a = false.
 Proof. intros D sc. exact (legacy_refuted_torn D sc). Qed.
 
+(* ---- with the temporary files and recycled pids modelled (Kernel/CacheTmp.v) ---- *)
+(* the refined system simulates the abstract one (erase pids and temporary files) ... *)
+Theorem C16_tmp_refines : forall (D : Type) (same_cookie : D -> D -> bool) (s0 : fs2 D) (w : world2 D),
+  wsteps2 D same_cookie (init2 D s0) w ->
+  wsteps D same_cookie {| disk := base D s0; procs := [] |} (erase_world D w).
+Proof. exact refines. Qed.
+(* ... so safety carries over, from ANY initial disk and ANY leftover temporary files ... *)
+Theorem C16_tmp_safe : forall (D : Type) (same_cookie : D -> D -> bool),
+  (forall a b : D, same_cookie a b = true -> a = b) ->
+  forall (s0 : fs2 D) (w : world2 D), wsteps2 D same_cookie (init2 D s0) w ->
+  forall (p : proc2 D) (d : D), In p (procs2 D w) -> p_pc D p = PInstalled D d -> d = p_own D p.
+Proof. exact cache_tmp_safe. Qed.
+(* ... and in every reachable world a live process can take its next step: a temporary file left behind under ITS pid by
+   a crashed earlier process is simply overwritten *)
+Theorem C16_tmp_progress : forall (D : Type) (same_cookie : D -> D -> bool) (s0 : fs2 D) (w : world2 D),
+  wsteps2 D same_cookie (init2 D s0) w ->
+  forall p : proc2 D, In p (procs2 D w) -> (forall d : D, p_pc D p <> PInstalled D d) -> p_pc D p <> PCrashed D ->
+  exists (q : proc2 D) (s' : fs2 D), pstep2 D same_cookie p (disk2 D w) q s' /\ p_pc D q <> PCrashed D.
+Proof. exact cache_tmp_progress. Qed.
+(* for contrast, EXCLUSIVE creation of the temporary file (mode 'x', seeded change S87): a process with pid 1 dies during
+   or after its write; a new process with pid 1 reaches the write step and can only crash, for ever *)
+Theorem C16_exclusive_create_stuck : forall (D : Type) (same_cookie : D -> D -> bool) (d : D) (torn : bool),
+  exists (w : world2 D) (p : proc2 D),
+    w = stuck_world D d torn /\ wsteps2x D same_cookie (init2 D (empty_fs2 D)) w /\
+    nth_error (procs2 D w) 0 = Some {| pid2 := 1; p_own := d; p_pc := PCrashed D |} /\
+    nth_error (procs2 D w) 1 = Some p /\ pid2 D p = 1 /\ p_pc D p = PRemoved D /\ running D p = true /\
+    (forall (q : proc2 D) (s' : fs2 D), pstep2x D same_cookie p (disk2 D w) q s' -> p_pc D q = PCrashed D).
+Proof. exact exclusive_create_stuck. Qed.
+
 Print Assumptions C16_safe.
 Print Assumptions C16_progress.
 Print Assumptions C16_refuted_legacy.
+Print Assumptions C16_tmp_refines.
+Print Assumptions C16_tmp_safe.
+Print Assumptions C16_tmp_progress.
+Print Assumptions C16_exclusive_create_stuck.
